@@ -118,6 +118,18 @@ def _family_triples(thorough):
         # points of ONE_PER_PATCH (all leave their patch)
         fam["overshoot"] = [(NNLO, t, None) for t in over[::8]] + [(NNLO, t, rat) for t in over[4::8]]
         fam["roundtrip"] = [(NNLO, (a, b, a), None) for a in ONE_PER_PATCH for b in ONE_PER_PATCH if a != b]
+    # (e) short legs: a leg over which the coupling changes by less than 1e-4 (a few per mille in mu), first or last; a kernel that
+    #     treats nearly equal couplings as equal freezes such a leg in one sector while the direct evolution includes it
+    short = []
+    for a, c in ((P[1], P[5]), (P[4], P[0]), (P[2], P[3])) if not thorough else [(a, c) for a in P for c in P if a != c]:
+        for eps in (0.004, -0.004) if thorough else (0.004,):
+            b1 = (a[0] * (1 + eps), a[1])
+            b2 = (c[0] * (1 + eps), c[1])
+            if admissible(a, b1, c):
+                short.append((a, b1, c))
+            if admissible(a, c, b2):
+                short.append((a, c, b2))
+    fam["shortleg"] = [(NLO, t, None) for t in short] + ([(NNLO, t, None) for t in short] if thorough else [(NNLO, t, None) for t in short[::2]])
     return fam
 
 
@@ -279,6 +291,8 @@ def run(ctx):
         f"{'every' if ctx.thorough() else 'every eighth (without the ratios) and every eighth shifted by four (with the ratios)'} ordered triple of the lattice "
         f"whose intermediate nf lies outside the end points' nf, NNLO{' without and with the ratios, and NLO' if ctx.thorough() else ''}; roundtrip = every "
         f"p0 -> p1 -> p0 of {'the lattice, NNLO and NLO, and NNLO with the ratios where it leaves its patch' if ctx.thorough() else str(ONE_PER_PATCH) + ', NNLO'}; "
+        f"shortleg = a first or last leg of {'+-' if ctx.thorough() else '+'}0.4 % in mu (coupling change below 1e-4) for "
+        f"{'every ordered pair of lattice points' if ctx.thorough() else 'three pairs of lattice points'}, NLO{' and NNLO' if ctx.thorough() else ' (every second also NNLO)'}; "
         "x space: real solves on 15/25-point grids applied to the Les Houches toy PDFs; non-trivial = solved"
     )
     ctx.assumptions += [
